@@ -129,7 +129,10 @@ where
         let res: &mut LWE<&mut [u8]> = &mut res.to_mut();
         let other: &LWECompressed<&[u8]> = &other.to_ref();
 
-        assert_eq!(res.lwe_layout(), other.lwe_layout());
+        // The compressed form stores only the body (a degree-1 vector): it does not record the LWE
+        // dimension, which is given by the receiver.
+        assert_eq!(res.base2k(), other.base2k());
+        assert_eq!(res.max_k(), other.max_k());
 
         let mut source: Source = Source::new(other.seed);
         self.vec_znx_fill_uniform(other.base2k().into(), &mut res.data, 0, &mut source);
